@@ -168,8 +168,9 @@ inline SCls sigClassOf(uint32_t c, EncInfo& enc, bool v11) {
 }
 inline uint32_t sigMask(const XS& s, EncInfo& enc, bool v11) { uint32_t m = 0; for (auto c : decode(s)) m |= 1u << sigClassOf(c, enc, v11); return m; }
 // replace every character of signature class k by 'x' (a supplementary character by "xx": same number of UTF-16 units)
-inline XS replaceSigClass(const XS& s, int k, EncInfo& enc, bool v11) {
-    XS r; for (auto c : decode(s)) { if (sigClassOf(c, enc, v11) == k) { r += u'x'; if (c >= 0x10000) r += u'x'; } else appendCp(r, c); }
+// (in names: by a letter derived from the character, so that two different names stay different)
+inline XS replaceSigClass(const XS& s, int k, EncInfo& enc, bool v11, bool inName = false) {
+    XS r; for (auto c : decode(s)) { if (sigClassOf(c, enc, v11) == k) { char16_t x = inName ? (char16_t)(u'a' + c % 26) : u'x'; r += x; if (c >= 0x10000) r += x; } else appendCp(r, c); }
     return r;
 }
 
